@@ -14,7 +14,50 @@ def untag(v):
     return v
 
 
+from fnmatch import fnmatch as _fn
+
+
+def reference(f, v):
+    """the documented meaning (property C14), written independently of the implementation; returns None where it is left open"""
+    if isinstance(f, list):
+        rs = [reference(x, v) for x in f]
+        return None if any(r is None for r in rs) and not any(r is True for r in rs) else any(r is True for r in rs)
+    if isinstance(f, dict) and 'operator' in f and 'value' in f:
+        op, b = f['operator'], f['value']
+        num = lambda x: isinstance(x, (int, float))
+        if op == '=':
+            return v == b
+        if op not in ('<', '<=', '>', '>='):
+            return False
+        if not ((num(v) and num(b)) or (isinstance(v, str) and isinstance(b, str))):
+            return None if (isinstance(v, (list, dict)) and isinstance(b, (list, dict))) else False
+        return {'<': v < b, '<=': v <= b, '>': v > b, '>=': v >= b}[op]
+    if v is None and f is not None:
+        return False
+    if isinstance(f, str):
+        return isinstance(v, str) and _fn(v, f)
+    return v == f
+
+
+def search():
+    atoms = [None, True, False, 0, 1, 2.5, -1, '', 'a', 'v1', 'v2', 'v[12]', 'a*', '?', '[ab]', 'ab', 'b', '*', {}, {'k': 1}, [], [1]]
+    ops = [{'operator': o, 'value': x} for o in ('=', '<', '<=', '>', '>=', '!=', 'in') for x in (None, 1, 'a', [1], {})]
+    filters = atoms + ops + [[a, b] for a in (None, 'a*', 1, ops[1], ops[-3]) for b in (None, 'v[12]', 2.5, ops[7])] + [{'operator': '<'}, {'value': 1}]
+    for f in filters:
+        for v in atoms:
+            want = reference(f, v)
+            try:
+                got = TapeCassette._match_metadata_value(f, v)
+            except BaseException as ex:
+                return {'filter': repr(f), 'recorded': repr(v), 'raised': repr(ex), 'raised_class': type(ex).__name__, 'expected': repr(want)}
+            if want is not None and bool(got) != want:
+                return {'filter': repr(f), 'recorded': repr(v), 'result': repr(got), 'raised': None, 'expected': repr(want)}
+    return None
+
+
 scn = json.load(sys.stdin)
+if scn.get('search'):
+    print(json.dumps({'found': search()})); sys.exit(0)
 f, v = untag(scn['filter']), untag(scn['recorded'])
 out = {'filter': repr(f), 'recorded': repr(v)}
 try:
@@ -23,6 +66,7 @@ try:
     else:
         out['result'] = repr(TapeCassette._match_metadata_value(f, v))
     out['raised'] = None
+    out['expected'] = repr(reference(f, v))
 except BaseException as ex:
     out['raised'] = repr(ex); out['raised_class'] = type(ex).__name__
 print(json.dumps(out))
